@@ -95,7 +95,7 @@ def produce(ctx, model, route, rng):
     nr, nrho = int(t["nr"]), int(t["nrho"])
     out = routes.text_sink()
     fn = ap.writeTABEAMFinnisSinclair if model["type"] == "fs" else ap.writeTABEAM
-    fn(nrho, float(t["cutoff_rho"]) / (nrho - 1), nr, float(t["cutoff"]) / (nr - 1), eams, pots, out, "title %d" % rng.randint(0, 99))
+    fn(nrho, float(t["cutoff_rho"]) / (nrho - 1), nr, float(t["cutoff"]) / (nr - 1), eams, pots, out, rng.choice(["title %d", "title %d", "title %d\n", "Al-Cu EEAM\n%d functions", "t %d\r\n"]) % rng.randint(0, 99))
     return out.getvalue()
   return routes.write_tab(routes.read_config(emit.model_text(model, emit.Style(rng))))
 
